@@ -58,6 +58,21 @@ func callWithin(limit time.Duration, f func(ctx context.Context) error) (err err
 	}
 }
 
+// waitDone ends the scripted peer of a call: its pending read is made to fail (again and again,
+// because the peer may set its own deadline after ours) until its goroutine is gone.
+func waitDone(done chan struct{}, conns ...*net.UDPConn) {
+	for {
+		for _, c := range conns {
+			c.SetReadDeadline(time.Now())
+		}
+		select {
+		case <-done:
+			return
+		case <-time.After(5 * time.Millisecond):
+		}
+	}
+}
+
 // ---- scripted NTP peer over IP ----
 
 type ipPeer struct {
@@ -128,7 +143,7 @@ func runClientIP(e *netEnv, a []val) string {
 			_, _, err := client.MeasureClockOffsetIP(ctx, discardLog, c, local, &net.UDPAddr{IP: e.peerIP, Port: p.port()})
 			return err
 		})
-		<-done
+		waitDone(done, p.conn)
 		return err
 	}
 	do(a[0].l, a[1].z == 1)
@@ -150,6 +165,8 @@ type ntsPeer struct {
 	keLens   []int64 // cookies the next key exchange hands out
 	c2s, s2c []byte
 	nKE      int
+	server   []byte // Server record of the next key exchange (nil: the peer's address)
+	port     int    // Port record (0: the scripted NTP peer's port)
 }
 
 func newNTSPeer(e *netEnv) *ntsPeer {
@@ -184,13 +201,20 @@ func (p *ntsPeer) handleKE(conn *tls.Conn) {
 	p.mu.Lock()
 	p.c2s, p.s2c = data.C2sKey, data.S2cKey
 	lens := p.keLens
+	server, port := p.server, p.port
 	p.nKE++
 	p.mu.Unlock()
+	if server == nil {
+		server = []byte(p.e.peerIP.String())
+	}
+	if port == 0 {
+		port = p.ntp.port()
+	}
 	var msg ntske.ExchangeMsg
 	msg.AddRecord(ntske.NextProto{NextProto: ntske.NTPv4})
 	msg.AddRecord(ntske.Algorithm{Algo: []uint16{ntske.AES_SIV_CMAC_256}})
-	msg.AddRecord(ntske.Server{Addr: []byte(p.e.peerIP.String())})
-	msg.AddRecord(ntske.Port{Port: uint16(p.ntp.port())})
+	msg.AddRecord(ntske.Server{Addr: server})
+	msg.AddRecord(ntske.Port{Port: uint16(port)})
 	for _, l := range lens {
 		ck := make([]byte, l)
 		rand.Read(ck)
@@ -274,9 +298,11 @@ func runClientNTS(e *netEnv, a []val) string {
 	c.Auth.NTSKEFetcher.Port = kePort
 	local := &net.UDPAddr{IP: e.peerIP}
 	ntsLimit := 1200 * time.Millisecond
+	var keServer []byte
 	do := func(keLens []int64, mode int64, replyLens []int64) error {
 		p.mu.Lock()
 		p.keLens = keLens
+		p.server = keServer
 		p.mu.Unlock()
 		done := make(chan struct{})
 		go p.ntp.serve(nil, func(req []byte) []byte { return p.ntsReply(req, mode, replyLens) }, done)
@@ -284,8 +310,7 @@ func runClientNTS(e *netEnv, a []val) string {
 			_, _, err := client.MeasureClockOffsetIP(ctx, discardLog, c, local, &net.UDPAddr{IP: e.peerIP, Port: p.ntp.port()})
 			return err
 		})
-		p.ntp.conn.SetReadDeadline(time.Now())
-		<-done
+		waitDone(done, p.ntp.conn)
 		if debugOn {
 			note(fmt.Sprintf("cli.nts call ke=%v mode=%d reply=%v -> %v", keLens, mode, replyLens, err))
 		}
@@ -299,8 +324,16 @@ func runClientNTS(e *netEnv, a []val) string {
 		return r
 	}
 	for _, st := range a[0].l {
+		keServer = nil
+		if len(st.l) > 3 {
+			keServer = st.l[3].b
+			if keServer == nil {
+				keServer = []byte{}
+			}
+		}
 		do(zs(st.l[0]), st.l[1].z, zs(st.l[2]))
 	}
+	keServer = nil
 	// sentinel: whatever is left in the client's cookie store is used up (at most 12 calls), every
 	// call has to return; then a call after an honest key exchange must succeed
 	honest := []int64{124, 124, 124, 124, 124, 124, 124, 124}
@@ -369,9 +402,7 @@ func runClientCSPTP(e *netEnv, a []val) string {
 			_, _, err := c.MeasureClockOffset(ctx, peerAddr, peerAddr)
 			return err
 		})
-		s319.SetReadDeadline(time.Now())
-		s320.SetReadDeadline(time.Now())
-		<-done
+		waitDone(done, s319, s320)
 		return err
 	}
 	do(a[0].l, a[1].z == 1)
@@ -483,8 +514,7 @@ func runClientSCION(e *netEnv, a []val) string {
 			_, _, err := client.MeasureClockOffsetSCION(ctx, discardLog, []*client.SCIONClient{c}, local, remote, ps)
 			return err
 		})
-		conn.SetReadDeadline(time.Now())
-		<-done
+		waitDone(done, conn)
 		return err
 	}
 	do(a[0].l, a[2].z == 1)
@@ -506,6 +536,12 @@ func runClient(e *netEnv, j job, a []val) string {
 		return runClientCSPTP(e, a)
 	case "cli.scion":
 		return runClientSCION(e, a)
+	case "cli.scionnts":
+		return runClientSCIONNTS(e, a, true)
+	case "cli.overlap":
+		return runOverlap(e, a)
+	case "cli.ipopt":
+		return runClientIPOpt(e, a)
 	}
 	return "0 []"
 }
